@@ -155,7 +155,7 @@ def isFixedScale0 : DuckTy → Bool | .decimal _ 0 => true | _ => false
 /-- outcome of `conn.cursor().execute(sql)` on the fake connection — the same call the in-process user makes -/
 inductive Exec
   /-- `snowflake.connector.errors.ProgrammingError` -/
-  | progErr (errno : Nat) (sqlstate : String) (msg : String)
+  | progErr (errno : Int) (sqlstate : String) (msg : String)
   /-- any other exception class (sqlglot ParseError, raw duckdb errors, NotImplementedError, …) -/
   | otherExc
   /-- success: `describable` = `DESCRIBE <last sql>` works and every column type is in the table;
@@ -167,7 +167,7 @@ inductive Desc | cols | empty | raises deriving DecidableEq, Repr
 
 /-- what the client observes -/
 inductive Obs
-  | progErr (errno : Nat) (sqlstate : String) (msg : String)
+  | progErr (errno : Int) (sqlstate : String) (msg : String)
   | raw           -- in-process: the raw exception reaches the caller
   | http500       -- over HTTP: Internal Server Error
   | ok (nrows rowcount : Nat) (desc : Desc)
